@@ -54,6 +54,9 @@ pub struct Prediction {
     pub files: BTreeMap<String, FileExpect>,
     /// expected stdout bytes where the statements determine them
     pub stdout: Option<Vec<u8>>,
+    /// safety level (a standard stream failed or stalled, the process was killed): what reached
+    /// stdout must be a prefix of this - output may be lost, never wrong
+    pub stdout_prefix_of: Option<Vec<u8>>,
     /// identifiers of input documents that must not show up on stdout (check modes)
     pub markers: Vec<String>,
     pub level: Level,
@@ -155,6 +158,7 @@ pub fn predict(tree: &Tree, inv: &Inv, fired: &Fired, oracle: &mut Oracle) -> Pr
         inputs: Vec::new(),
         files: tree.keys().map(|k| (k.clone(), FileExpect::Unchanged)).collect(),
         stdout: None,
+        stdout_prefix_of: None,
         markers: Vec::new(),
         level: if fired.crashed || fired.std_stream_failed || fired.lock_refused { Level::Safety } else { Level::Full },
         any_unformatted: false,
@@ -203,6 +207,8 @@ pub fn predict(tree: &Tree, inv: &Inv, fired: &Fired, oracle: &mut Oracle) -> Pr
             p.inputs.push(InputInfo { named: "<stdin>".into(), class, len: bytes.len() });
             if !*check && !safety {
                 p.stdout = Some(stdout);
+            } else if !*check {
+                p.stdout_prefix_of = Some(stdout);
             }
         }
         Shape::Files { mode, paths } => {
@@ -330,6 +336,8 @@ pub fn predict(tree: &Tree, inv: &Inv, fired: &Fired, oracle: &mut Oracle) -> Pr
             }
             if *mode == Mode::Stdout && !safety {
                 p.stdout = Some(stdout);
+            } else if *mode == Mode::Stdout {
+                p.stdout_prefix_of = Some(stdout);
             }
             if *mode == Mode::InplaceCheck {
                 // usage error: nothing is processed
@@ -612,6 +620,29 @@ pub fn check(
                     out.stdout.len(),
                     want.len(),
                     d,
+                    excerpt(&out.stdout[d.min(out.stdout.len())..], 40),
+                    excerpt(&want[d.min(want.len())..], 40)
+                ),
+            ));
+        }
+    }
+
+    // ---- what did reach stdout although a standard stream failed or stalled, or the process was
+    // killed: output may be lost, but it is never wrong - a prefix of the right text (a writer
+    // that starts over after a partial write prints its beginning twice)
+    if let Some(want) = pred.stdout_prefix_of.as_ref().filter(|_| inv.debug == 0 && pred.unmodelled.is_none()) {
+        if !want.starts_with(&out.stdout) {
+            let d = first_diff(&out.stdout, want);
+            let id = if matches!(inv.shape, Shape::Stdin { .. }) { "I16.2-stdin-garbled" } else { "I16.1-stdout-garbled" };
+            v.push(viol(
+                &["C16"],
+                id,
+                step,
+                format!(
+                    "what reached stdout is not a prefix of the library result for {:?}: first difference at byte {} of {} (have {:?}, want {:?})",
+                    inv.style.cfg(),
+                    d,
+                    out.stdout.len(),
                     excerpt(&out.stdout[d.min(out.stdout.len())..], 40),
                     excerpt(&want[d.min(want.len())..], 40)
                 ),
